@@ -22,6 +22,9 @@ What is emitted (and nothing else):
   * second stage of the same (class TrEff2: buffer parameters, switch, do-while by fuel, input buffers): rtr_sync,
     rtr_handle_error_pdu, rtr_handle_cache_response_pdu, rtr_set_last_update, rtr_stop - written to
     coq/theories/Gen/GeneratedFsm2.v (imported by Rtr/FsmTie2.v).  `c2v.py --only-fsm2 [path]` writes only that file.
+  * third stage (class TrEff3: written buffer parameter, local structs as memory objects, memcpy, goto to a top-level
+    label, externals writing into the buffer): rtr_receive_pdu - written to coq/theories/Gen/GeneratedFsm3.v (imported
+    by Rtr/FsmTie3.v; vocabulary Base/EffMem.v).  `c2v.py --only-fsm3 [path]` writes only that file.
 A construct outside the subset makes the function come out as `<f>_untranslated`, which breaks
 the Coq files that mention `<f>_gen` - a broken tie, handled by the checks.
 """
@@ -2630,6 +2633,327 @@ def generate_fsm2():
 
 
 # ---------------------------------------------------------------------------
+# effect mode, third stage (class TrEff3, output Gen/GeneratedFsm3.v): rtr_receive_pdu
+# ---------------------------------------------------------------------------
+# On top of TrEff2 (vocabulary Base/EffMem.v next to Base/Mem.v, Base/MemW.v, Base/Eff.v):
+#   * scalar parameters behind the buffer parameter; the buffer parameter may be WRITTEN.  Since ERet has no slot for
+#     it, every `return e` of such a function is   ECall "c2v_ret_buffer" <the object's bytes> s (fun _ s => ERet e s):
+#     the pseudo-call hands the final content of the buffer to the interpretation.
+#   * a local struct (`struct pdu_header header`) is a memory object m_<name> of sizeof bytes (zeros before its first
+#     write, as local arrays in memory mode with stores); `header.len` is a guarded load from it, `&header` its address.
+#   * memcpy(d, s, n) between two DIFFERENT objects: guards ld_ok / st_ok over the whole ranges, then mcopy (Base/MemW.v).
+#   * a call of a function of GeneratedMemW.v that writes its one pointer argument (rtr_pdu_header_to_host_byte_order,
+#     rtr_pdu_footer_to_host_byte_order) - or of FSM3_MEMW_EXTRA, translated here in memory mode with stores
+#     (rtr_pdu_header_to_network_byte_order) - is  eopt (<f>_gen m p) (fun m => ...): the object is replaced.
+#   * external calls that WRITE through a pointer argument into a known object (EFF_WRITES: tr_recv_all writes at most
+#     `len` bytes at its 2nd argument): guard st_ok for the whole range, the bytes written are the rest of res__
+#     (cut to len), stored with mwrite.
+#   * input buffers of external calls may also be a pointer into a known object (the bytes from the pointer to the
+#     object's end, length first) or a string literal (its bytes and the terminating 0, length first).
+#   * `goto L` with L a label at the top level of the function body: the statements from the label to the end of the
+#     function are translated in place of the goto (once per goto); reaching the label from above is the same.
+EFF_WRITES = {("tr_recv_all", 1): 2}          # (callee, pointer argument) -> argument holding the maximal length
+FSM3_MEMW_EXTRA = [("rtrlib/rtr/packets.c", "rtr_pdu_header_to_network_byte_order")]
+FSM3_LEAFS = [("rtrlib/rtr/packets.c", "rtr_receive_pdu", {"writes_buf": True})]
+FSM3_OUT = os.path.join(vlib.THEORIES, "Gen", "GeneratedFsm3.v")
+
+
+class TrEff3(TrEff2):
+    def __init__(self, fn, eff_known, mem_known, memw_known, enums, sizes, opts):
+        TrEff2.__init__(self, fn, eff_known, mem_known, enums, sizes, opts)
+        self.memw_known = memw_known
+        self.struct_objs = {}
+        self.labels = {}
+        self.scalar_params = []
+
+    # -- memory ----------------------------------------------------------------
+    def paddr(self, n):
+        if n.get("kind") == "DeclRefExpr" and n["referencedDecl"]["name"] in self.struct_objs:
+            return [], "(Some 0)"
+        return TrMem.paddr(self, n)
+
+    def in_struct(self, lv):
+        k = lv.get("kind")
+        if k == "ParenExpr":
+            return self.in_struct(inner(lv)[0])
+        if k == "MemberExpr" and not lv.get("isArrow"):
+            b = inner(lv)[0]
+            while b.get("kind") == "ParenExpr":
+                b = inner(b)[0]
+            if b.get("kind") == "DeclRefExpr":
+                return b["referencedDecl"]["name"] in self.struct_objs
+            return self.in_struct(b)
+        return False
+
+    def expr(self, n):
+        k = n.get("kind")
+        if k in ("ImplicitCastExpr", "CStyleCastExpr") and n.get("castKind") == "LValueToRValue" and self.in_struct(inner(n)[0]):
+            return self.load(inner(n)[0], n)
+        if k == "MemberExpr" and self.in_struct(n):
+            return self.load(n, n)
+        return TrEff2.expr(self, n)
+
+    def buffer_arg(self, a):
+        r = TrEff2.buffer_arg(self, a)
+        if r is not None:
+            return r
+        if is_ptr_type(self.qt(a)) and not is_null_ptr(a):
+            try:
+                g, t = self.pexpr(a)
+                obj = self.objof(a)
+            except Untranslatable:
+                return None
+            if g:
+                return None
+            return obj, t, None
+        return None
+
+    def byte_seg(self, a):
+        """an input-buffer argument -> Coq list term (length first), or None"""
+        aa = strip_casts(a, ("ImplicitCastExpr", "ParenExpr", "CStyleCastExpr"))
+        if aa.get("kind") == "StringLiteral":
+            bs = list(json.loads(aa["value"]).encode("latin-1")) + [0]
+            return "(%d :: [%s])" % (len(bs), "; ".join(str(b) for b in bs))
+        if aa.get("kind") == "DeclRefExpr" and aa["referencedDecl"]["name"] in self.arrays:
+            ent = self.arrays[aa["referencedDecl"]["name"]]
+            if ent[1]:
+                return "(Z.of_nat (List.length %s) :: %s)" % (ent[0], ent[0])
+            return None
+        ba = self.buffer_arg(a)
+        if ba is not None:
+            return "(Z.of_nat (List.length (mfrom %s %s)) :: mfrom %s %s)" % (ba[0], ba[1], ba[0], ba[1])
+        return None
+
+    # -- calls -------------------------------------------------------------------
+    def emit_call(self, c, var, nxt):
+        name = self.callee(c)
+        args = inner(c)[1:]
+        sv = gname(self.sock)
+        if name in self.memw_known and name not in self.mem_known:
+            kinds, tag, widx, has_value = self.memw_known[name]
+            if kinds != ["ptr"] or widx != [0] or has_value:
+                raise Untranslatable("call to %s: only writers of one pointer argument are supported" % name)
+            ba = self.buffer_arg(args[0])
+            if ba is None:
+                raise Untranslatable("call to %s: the argument points into no known object" % name)
+            return "eopt (%s_gen %s %s) (fun %s =>\n%s)" % (name, ba[0], ba[1], ba[0], nxt())
+        if name in self.mem_known or name in self.eff_known:
+            return TrEff2.emit_call(self, c, var, nxt)
+        is_void = (c.get("type") or {}).get("qualType", "") == "void"
+        g, parts, outs, buf, wr = [], [], [], None, None
+        for i, a in enumerate(args):
+            aa = strip_casts(a, ("ImplicitCastExpr", "ParenExpr", "CStyleCastExpr"))
+            q = (a.get("type") or {}).get("qualType", "")
+            if aa.get("kind") == "DeclRefExpr" and aa["referencedDecl"]["name"] == self.sock:
+                continue
+            if aa.get("kind") == "MemberExpr" and is_ptr_type((aa.get("type") or {}).get("qualType", "")):
+                b, _ = self.lvalue_key(aa)
+                if b == self.sock:
+                    continue
+                raise Untranslatable("pointer argument of " + name)
+            if (name, i) in EFF_WRITES:
+                ba = self.buffer_arg(a)
+                if ba is None or wr is not None:
+                    raise Untranslatable("written argument of " + name)
+                gl, tl = self.expr(args[EFF_WRITES[(name, i)]])
+                g += gl
+                wr = (ba[0], ba[1], tl)
+                continue
+            if aa.get("kind") == "DeclRefExpr" and aa["referencedDecl"]["name"] in self.arrays \
+                    and not self.arrays[aa["referencedDecl"]["name"]][1]:
+                if buf is not None:
+                    raise Untranslatable("two unwritten arrays handed to " + name)
+                buf = self.arrays[aa["referencedDecl"]["name"]]
+                continue
+            if is_null_ptr(a):
+                parts.append("[(0)]")
+                continue
+            seg = self.byte_seg(a)
+            if seg is not None:
+                parts.append(seg)
+                continue
+            if is_ptr_type(q):
+                raise Untranslatable("pointer argument of " + name)
+            ga, ta = self.expr(a)
+            g += ga
+            parts.append("[%s]" % ta)
+        lets, pos = [], 0
+        if not is_void:
+            if var:
+                lets.append("let %s := nth %d%%nat res__ 0 in" % (var, pos))
+            pos += 1
+        if buf is not None and wr is not None:
+            raise Untranslatable("two output buffers of " + name)
+        if buf is not None:
+            lets.append("let %s := skipn %d%%nat res__ in" % (buf[0], pos))
+            buf[1] = True
+        if wr is not None:
+            g.append("(st_ok %s %s %s)" % wr)
+            lets.append("let %s := mwrite %s %s (firstn (Z.to_nat %s) (skipn %d%%nat res__)) in" % (wr[0], wr[0], wr[1], wr[2], pos))
+        argt = "(" + " ++ ".join(parts) + ")%list" if parts else "[]"
+        body = nxt()
+        return self.eguarded(g, 'ECall "%s" %s %s (fun res__ %s =>\n%s%s)'
+                             % (name, argt, sv, sv, "".join(x + "\n" for x in lets), body))
+
+    # -- statements ----------------------------------------------------------------
+    def stmts(self, lst, k):
+        if not lst:
+            return k()
+        s, rest = lst[0], lst[1:]
+        kind = s.get("kind")
+        nxt = lambda: self.stmts(rest, k)  # noqa: E731
+        sv = gname(self.sock)
+        if kind == "DeclStmt":
+            ds = inner(s)
+            if len(ds) == 1 and ds[0].get("kind") == "VarDecl" and not inner(ds[0]):
+                d = ds[0]
+                q = d["type"].get("desugaredQualType", d["type"]["qualType"])
+                m = re.fullmatch(r"struct (\w+)", q)
+                if m and ("S", m.group(1)) in self.sizes:
+                    obj = "m_" + d["name"]
+                    self.locals.add(d["name"])
+                    self.struct_objs[d["name"]] = obj
+                    self.obj_of[d["name"]] = obj
+                    self.decl_order.append(d["name"])
+                    return "let %s : list Z := zeros %d in\n%s" % (obj, self.sizes[("S", m.group(1))], nxt())
+        if kind == "CallExpr" and self.callee(s) == "memcpy":
+            d, sr, n = inner(s)[1:]
+            bd, bs = self.buffer_arg(d), self.buffer_arg(sr)
+            if bd is None or bs is None or bd[0] == bs[0]:
+                raise Untranslatable("memcpy: two different known objects wanted")
+            g, tn = self.expr(n)
+            return self.eguarded(g + ["(ld_ok %s %s %s)" % (bs[0], bs[1], tn), "(st_ok %s %s %s)" % (bd[0], bd[1], tn)],
+                                 "let %s := mcopy %s %s %s %s %s in\n%s" % (bd[0], bd[0], bd[1], bs[0], bs[1], tn, nxt()))
+        if kind == "GotoStmt":
+            tgt = s.get("targetLabelDeclId")
+            if tgt not in self.labels:
+                raise Untranslatable("goto to a label that is not at the top level of the function")
+            snap = self.snapshot()
+            r = self.stmts(self.labels[tgt], self.fall)
+            self.restore(snap)
+            return r
+        if kind == "LabelStmt":
+            return self.stmts([inner(s)[-1]] + rest, k)
+        if kind == "ReturnStmt" and self.opts.get("writes_buf"):
+            ins = inner(s)
+            if not ins or self.calls_in(ins[0]):
+                raise Untranslatable("return shape")
+            g, t = self.expr(ins[0])
+            obj = self.obj_of[self.buf_param]
+            return self.eguarded(g, 'ECall "c2v_ret_buffer" %s %s (fun res__ %s =>\nERet %s %s)' % (obj, sv, sv, t, sv))
+        return TrEff2.stmts(self, lst, k)
+
+    def snapshot(self):
+        a, b = TrEff2.snapshot(self)
+        return a, b, dict(self.struct_objs), dict(self.obj_of), set(self.ptr_locals)
+
+    def restore(self, snap):
+        TrEff2.restore(self, (snap[0], snap[1]))
+        self.struct_objs, self.obj_of, self.ptr_locals = dict(snap[2]), dict(snap[3]), set(snap[4])
+
+    # -- whole function ------------------------------------------------------------
+    def function(self, mutates=False):
+        fn = self.fn
+        params = [c for c in inner(fn) if c.get("kind") == "ParmVarDecl"]
+        if len(params) < 2 or not re.fullmatch(r"struct rtr_socket \*", params[0]["type"]["qualType"].replace("const ", "").strip()):
+            raise Untranslatable("parameters: socket, buffer, scalars wanted")
+        self.sock = params[0]["name"]
+        self.locals.add(self.sock)
+        self.ptr_params = [self.sock]
+        self.result_kind = "eff"
+        p = params[1]
+        if not is_ptr_type(p["type"]["qualType"]):
+            raise Untranslatable("the second parameter is not a buffer pointer")
+        self.buf_param = p["name"]
+        self.locals.add(p["name"])
+        self.ptr_locals.add(p["name"])
+        self.obj_of[p["name"]] = "m_" + p["name"]
+        sig = ["(m_%s : list Z)" % p["name"], "(%s : option Z)" % gname(p["name"])]
+        for q in params[2:]:
+            if not (int_type(q["type"].get("desugaredQualType", q["type"]["qualType"])) or int_type(q["type"]["qualType"])):
+                raise Untranslatable("parameter type " + q["type"]["qualType"])
+            self.locals.add(q["name"])
+            sig.append("(%s : Z)" % gname(q["name"]))
+        sig.append("(%s : store)" % gname(self.sock))
+        body = [c for c in inner(fn) if c.get("kind") == "CompoundStmt"][0]
+        top = inner(body)
+        for i, c in enumerate(top):
+            if c.get("kind") == "LabelStmt":
+                self.labels[c.get("declId")] = [inner(c)[-1]] + top[i + 1:]
+        rq = fn["type"]["qualType"].split("(")[0].strip()
+        if rq == "void":
+            raise Untranslatable("void function with a written buffer")
+        self.fall = lambda: "EUndef (* falls off the end *)"
+        term = self.stmts(top, self.fall)
+        text = "Definition %s_gen %s : eff :=\n%s.\n" % (fn["name"], " ".join(sig), term)
+        return text, {"ret": "Z", "buf": True, "fuel": False}
+
+
+def memw_signatures():
+    """signatures of the functions of GeneratedMemW.v (the loop of generate_memw, without output)"""
+    if "known" not in _MEM_CTX:
+        generate_mem()
+    known = dict(_MEM_CTX.get("known", {}))
+    enums_all = dict(_MEM_CTX.get("enums", {}))
+    sizes = _MEM_CTX.get("sizes", {})
+    for cfile, en in MEMW_ENUMS:
+        try:
+            for n, v in enum_values(cfile, en):
+                enums_all.setdefault(n, v)
+        except Exception:  # noqa: BLE001
+            pass
+    for cfile, fname, sl in MEMW_LEAFS:
+        try:
+            fn = find_def(cfile, fname)
+            tr = TrMemW(fn, known, enums_all, sizes, {})
+            text, sig = tr.function() if sl is None else tr.slice(sl)
+            known[fname if sl is None else "%s__%s" % (fname, sl[-1])] = sig
+        except Exception:  # noqa: BLE001
+            pass
+    return known, enums_all, sizes
+
+
+def generate_fsm3():
+    """text of Gen/GeneratedFsm3.v: rtr_receive_pdu as an effect tree"""
+    out, problems = [], []
+    w = out.append
+    w("(* GENERATED by tools/c2v.py (effect mode, third stage) from the repository sources - do not edit. *)")
+    w("From RtrV Require Import Base.CSem Base.Mem Base.MemW Base.Eff Base.EffMem Gen.Generated Gen.GeneratedMem Gen.GeneratedMemW.")
+    w("Local Open Scope string_scope.\nLocal Open Scope Z_scope.\n")
+    memw_known, enums_all, sizes = memw_signatures()
+    mem_known = dict(_MEM_CTX.get("known", {}))
+    for cfile, fname in FSM3_MEMW_EXTRA:
+        try:
+            fn = find_def(cfile, fname)
+            if fn is None:
+                raise Untranslatable("definition not found")
+            text, sig = TrMemW(fn, memw_known, enums_all, sizes, {}).function()
+            memw_known[fname] = sig
+            w("(* %s : %s (memory mode with stores) *)" % (cfile, fname))
+            w(text)
+        except Exception as e:  # noqa: BLE001
+            problems.append("function %s: %s" % (fname, e))
+            w("(* %s could not be translated: %s *)" % (fname, str(e).replace("*)", "* )")))
+            w("Definition %s_untranslated := tt.\n" % fname)
+    eff_known = {}
+    for cfile, fname, opts in FSM3_LEAFS:
+        try:
+            fn = find_def(cfile, fname)
+            if fn is None:
+                raise Untranslatable("definition not found")
+            text, info = TrEff3(fn, eff_known, mem_known, memw_known, enums_all, sizes, opts).function()
+            eff_known[fname] = info
+            w("(* %s : %s *)" % (cfile, fname))
+            w(text)
+        except Exception as e:  # noqa: BLE001
+            problems.append("function %s: %s" % (fname, e))
+            w("(* %s could not be translated: %s *)" % (fname, str(e).replace("*)", "* )")))
+            w("Definition %s_untranslated := tt.\n" % fname)
+    w("Definition fsm3_translator_problems : list string := [%s]." % "; ".join(coq_string(p[:200]) for p in problems))
+    return "\n".join(out) + "\n", problems
+
+
+# ---------------------------------------------------------------------------
 # lock skeletons
 # ---------------------------------------------------------------------------
 # For every non-static function of trie-pfx.c / ht-spkitable.c the translator emits a small
@@ -3669,6 +3993,14 @@ def write_if_changed(path, text, label):
 
 
 def main():
+    # --only-fsm3 [path]: write only Gen/GeneratedFsm3.v (to `path` if given)
+    if "--only-fsm3" in sys.argv[1:]:
+        rest = [a for a in sys.argv[1:] if a != "--only-fsm3"]
+        ftext, fproblems = generate_fsm3()
+        write_if_changed(rest[0] if rest else FSM3_OUT, ftext, "GeneratedFsm3.v")
+        for p in fproblems:
+            print("c2v: problem:", p)
+        return 0
     # --only-fsm2 [path]: write only Gen/GeneratedFsm2.v (to `path` if given)
     if "--only-fsm2" in sys.argv[1:]:
         rest = [a for a in sys.argv[1:] if a != "--only-fsm2"]
@@ -3715,7 +4047,9 @@ def main():
     write_if_changed(FSM_OUT, ftext, "GeneratedFsm.v")
     f2text, f2problems = generate_fsm2()
     write_if_changed(FSM2_OUT, f2text, "GeneratedFsm2.v")
-    mproblems = mproblems + iproblems + wproblems + fproblems + f2problems
+    f3text, f3problems = generate_fsm3()
+    write_if_changed(FSM3_OUT, f3text, "GeneratedFsm3.v")
+    mproblems = mproblems + iproblems + wproblems + fproblems + f2problems + f3problems
     for p in problems + sproblems + mproblems:
         print("c2v: problem:", p)
     return 0
